@@ -1,4 +1,4 @@
-"""C03 — orbits, cell ids and cell iterators agree with the orbit definition (2-D: theorems + tie; 3-D: tie + oracle)."""
+"""C03 — orbits, cell ids and cell iterators agree with the orbit definition (2-D and 3-D: theorems + tie + oracle)."""
 import random
 
 import gens
@@ -6,7 +6,7 @@ import hv
 from hv import Case
 
 SPEC = {
-    "lean_modules": ["Honeycomb.Props.C03"],
+    "lean_modules": ["Honeycomb.Props.C03", "Honeycomb.Props.C03b"],
     "required_theorems": [
         "C03_generic_bfs",
         "C03_orbit2_spec",
@@ -25,11 +25,30 @@ SPEC = {
         "C03_faceLinear_closed",
         "C03_vertexLinear_closed",
         "C03_transactional_eq_plain",
+        # 3-D (Props/C03b.lean)
+        "C03_orbit3_spec",
+        "C03_orbit3_custom_bad_panics",
+        "C03_images3_inverse_closed",
+        "C03_orbit3_is_cell",
+        "C03_orbit3_of_in_use_is_in_use",
+        "C03_vertexId3_min",
+        "C03_edgeId3_min",
+        "C03_volumeId3_min",
+        "C03_faceId3_min",
+        "C03_same_id3_iff_same_cell",
+        "C03_iter3_sorted",
+        "C03_iterVertices3_mem",
+        "C03_iterEdges3_mem",
+        "C03_iterFaces3_mem",
+        "C03_iterVolumes3_mem",
+        "C03_linear3_closed",
+        "C03_transactional3_eq_plain",
     ],
     "trusted_base": [
         "Lean 4.33 kernel; axioms propext, Classical.choice, Quot.sound only",
-        "hand-written model Honeycomb/Model/{Stm,Map,Ops,Ops2}.lean (bfs, gen2, orbit2, vertexId2/edgeId2/faceId2, iterCells) tied to "
-        "/repo by the hcmodel/hcimpl correspondence run on the yielded *sequences*",
+        "hand-written model Honeycomb/Model/{Stm,Map,Ops,Ops2,Ops3}.lean (bfs, gen2/gen3, orbit2/orbit3, vertexId2/edgeId2/faceId2, popLoop, "
+        "genVid3, vertexId3/edgeId3/faceId3 (faceWalk3)/volumeId3, iterCells) tied to /repo by the hcmodel/hcimpl correspondence run on "
+        "the yielded *sequences*",
         "that the four Rust implementations (orbit, orbit_transac, *_id_transac, iter_*) compute what the single model program computes "
         "is established by the correspondence run only (model: one program; `orbitnt`/`vidnt`/… are mapped to the same program)",
         "Rust harness /verif/harness/hcimpl, tools/*.py (the Python oracle recomputes cells by an independent union-find / closure)",
@@ -37,8 +56,10 @@ SPEC = {
     ],
     "assumptions": [
         "maps have fewer than 2^32 darts (no u32 wrap-around is modelled)",
-        "theorems are stated for non-null existing darts (d != 0, d < n_darts) of maps satisfying WF 3 (Model/WF.lean); null and "
-        "out-of-range darts are correspondence-only",
+        "theorems are stated for non-null existing darts (d != 0, d < n_darts) of maps satisfying WF 3 resp. WF 4 (Model/WF.lean); null "
+        "and out-of-range darts are correspondence-only",
+        "3-D face ids: claimed under FaceScope (Mirror; along b1 a dart is 3-free iff its successor is; a 3-linked dart is not 1-free) = "
+        "'glued faces are closed and mirrored'; faces that are not 3-linked may be open. Vertex, edge, volume ids and all orbits: every WF 4 map",
         "the correspondence is exhaustive only up to the dart bound stated in coverage.rule; above it sampled",
         "`i_cell::<I>` is not driven separately: it is `orbit` with the Vertex/Edge/Face policy (one-line wrapper, read)",
         "the model's id functions take the minimum of the collected orbit while the Rust code accumulates the minimum along the "
@@ -59,12 +80,14 @@ SPEC = {
             "restricted as the property says (see not_proved), plus on every map: iter_* = in-use darts that are their own id. "
             "distinct_nontrivial = distinct implementation output transcripts.",
     "not_proved": [
-        "3-D clauses of C03 (orbit3, vertex/edge/face/volume ids of CMap3, the two-sided face_id walk, iter_volumes): no theorem yet; they "
-        "are supported by the hcmodel/hcimpl correspondence (every 3-D case) and by the Python oracle `oracle_c03_3d` (streams3d), which "
-        "claims the vertex clauses on EVERY well-formed 3-map (since /repo e8bc83e the six vertex images are closed under inverse), the "
-        "face-id clauses on maps whose 3-glued faces are closed and mirrored (unglued faces of such maps included, open or closed), and the "
-        "linear policies only on closed cells (vl: on maps whose glued faces are closed and mirrored); outside these restrictions "
-        "correspondence only",
+        "3-D face ids outside `FaceScope` (Props/C03b.lean: Mirror + every face 3-linked as a whole + 3-linked darts not 1-free), in "
+        "particular wholly 3-linked, mirrored but OPEN glued faces: outside the property's stated scope, no theorem; correspondence "
+        "only (an exhaustive run over all WF 3-maps with n<=4 found no wrong face_id on them; dropping Mirror or wholeness does give "
+        "wrong ids, see the comment in C03b.lean)",
+        "3-D linear policies: proved equal to the full cell when every one-directional generator is defined on all darts of the cell "
+        "or on none (`LinClosed`, the oracle's `linear_closed3`); the oracle additionally restricts `vl` to maps whose glued faces are "
+        "closed and mirrored, the theorem does not need that",
+        "3-D null / out-of-range darts, refused Custom slices other than an index >= 4 on an existing dart: correspondence only",
         "that Rust's non-transactional `orbit` iterator and `*_id` wrappers coincide with the transactional code is a fact about the code "
         "(correspondence + oracle), the model has a single program for both",
     ],
